@@ -406,6 +406,8 @@ def c14_extra_cases():
 def c17_units(case):
     T = case["name"]
     ok_parts, bad_parts = [], []
+    has_builder = rules.builder_expected(case)
+    steps = chain_steps(case) if has_builder else []
     for k, f in enumerate(case["fields"]):
         api = rules.api_surface(f)
         nm = f["name"].replace("r#", "")
@@ -416,6 +418,10 @@ def c17_units(case):
             ("with", api["with_"], "pub fn p_with_%d(s: &%s) { let _ = s.with_%s(%s%s); }" % (k, T, nm, idx, arg)),
             ("set", api["set_"], "pub fn p_set_%d(s: &mut %s) { s.set_%s(%s%s); }" % (k, T, nm, idx, arg)),
         ]
+        if has_builder:
+            # the builder offers its steps in declaration order of the writable fields: the step of field k follows the steps of the writable fields before it
+            before = "".join(st for ff, st in steps if case["fields"].index(ff) < k)
+            probes.append(("bstep", api["builder_step"], "pub fn p_bstep_%d() { let _ = %s::builder()%s.%s(%s); }" % (k, T, before, emit.method_name(f, "with_"), zero_arg(case, f))))
         for what, present, line in probes:
             name = "%s:%d" % (what, k)
             (ok_parts if present else bad_parts).append((name, [line]))
@@ -492,7 +498,7 @@ def _check_c17(tier, seed, macro_profile="macrodev"):
                         res.violations.append((dict(category="api-leak", shape=combo), rec))
     cov["combos"] = combos_ok
     cov["distinct_nontrivial"] = len(combos_ok)
-    cov["rule"] = ("one probe function per (field, method) over rule-valid declarations: getter / with_ / set_ must compile exactly when the access specifier grants them and must fail with E0599 otherwise; "
+    cov["rule"] = ("one probe function per (field, method) over rule-valid declarations: getter / with_ / set_ / builder step (when the rules expect a builder; reached through the steps of the writable fields declared before it) must compile exactly when the access specifier grants them and must fail with E0599 otherwise; "
                    "distinct_nontrivial = distinct (field shape, access, method, present|absent) combinations observed as required")
     for c in cases[:: max(1, len(cases) // 4)][:4]:
         ok, bad = c17_units(c)
@@ -620,6 +626,17 @@ def check_c10(tier, seed):
     for r in reports:
         for v in r["stats"]["violations"]:
             res.violations.append((None, dict(v, tier=tier, seed=seed, group=r["group"], replay_kind="runtime")))
+    # an accepted enum whose conversions no longer have the documented types (exhaustive -> Self, otherwise Result<Self, storage integer>)
+    seen_glue = set()
+    fam_by_id = {c["id"]: c for c in catalog.family("enumf", tier, seed)}
+    for dct in dropped:
+        if dct.get("part") == "glue-enum" and dct["case"] not in seen_glue:
+            seen_glue.add(dct["case"])
+            c = fam_by_id.get(dct["case"])
+            rec = dict(kind="api-unusable", what="the documented use of a generated operation no longer compiles (%s)" % props.GLUE_WHAT["glue-enum"], case=dct["case"],
+                       decl="\n".join(emit.enum_decl(c["enum"]))[:3000] if c else "", observed="%s: %s" % (dct.get("code"), dct.get("message", "")[:300]), expected="compiles", tier=tier, seed=seed,
+                       group="enumf", profile=props.tier_profiles(tier)[0], replay_kind="runtime-build")
+            res.violations.append((None, rec))
     cov["distinct_nontrivial"] = len(combos)
     cov["rule"] = ("programs = generated bitenum declarations compiled by rustc with the real macro, then every accepted enum of the family converted at run time under each profile; distinct_nontrivial = distinct "
                    "(rule, shape, N) combinations for which the rule-valid twin was accepted and its one-edit rule-invalid twin rejected with an error located inside the declaration")
